@@ -475,7 +475,7 @@ def intToB64(i, l=1):
     """
     d = deque()  # deque of characters base64
 
-    while True:  # always at least one digit even when l == 0
+    while l:
         d.appendleft(B64ChrByIdx[i % 64])
         i = i // 64
         if not i:
